@@ -16,22 +16,34 @@ structure Quiet (s s' : St) : Prop where
   errors : s'.errors = s.errors
   abs : s'.abs = s.abs
   names : s'.root.innerNames = s.root.innerNames
+  rd : RdInv s → RdInv s'
 
-theorem Quiet.refl (s : St) : Quiet s s := ⟨rfl, rfl, rfl⟩
+theorem Quiet.refl (s : St) : Quiet s s := ⟨rfl, rfl, rfl, fun h => h⟩
 theorem Quiet.trans {a b c : St} (h1 : Quiet a b) (h2 : Quiet b c) : Quiet a c :=
-  ⟨by rw [h2.errors, h1.errors], by rw [h2.abs, h1.abs], by rw [h2.names, h1.names]⟩
+  ⟨by rw [h2.errors, h1.errors], by rw [h2.abs, h1.abs], by rw [h2.names, h1.names], fun h => h2.rd (h1.rd h)⟩
+
+/-- the reads invariant looks only at the counters of the live blocks and at the root's stack -/
+theorem rd_of_fields {s s' : St} (h : RdInv s) (hinner : ∀ b ∈ s'.inner, ∃ b' ∈ s.frames, b.reg = b'.reg)
+    (hreg : s'.root.reg = s.root.reg) (hctx : s'.root.context = s.root.context) : RdInv s' := by
+  refine rd_same h ?_ hctx hreg
+  intro b hb
+  obtain ⟨b', hb', he⟩ := hinner b hb
+  rw [he, hreg]
+  rcases mem_frames.mp hb' with hi | rfl
+  · exact h.sync b' hi
+  · rfl
 
 theorem drel_same {s s' : St} {ss : SpecSt} (hr : DRel s ss) (q : Quiet s s') (hv : s'.vals = s.vals) : DRel s' ss :=
   ⟨⟨by unfold ScopeRel; rw [hv]; exact hr.scope.sc, by rw [q.abs, hv]; exact hr.scope.dv⟩,
    by rw [q.abs]; exact hr.out, by rw [q.abs]; exact hr.next,
-   fun n hn => by rw [q.names]; exact hr.reg n (by rw [q.abs] at hn; exact hn)⟩
+   fun n hn => by rw [q.names]; exact hr.reg n (by rw [q.abs] at hn; exact hn), q.rd hr.rd⟩
 
 theorem drel_enter {s s' : St} {ss : SpecSt} (hr : DRel s ss) (q : Quiet s s') (hv : s'.vals = [] :: s.vals) :
     DRel s' ss.push :=
   ⟨⟨by unfold ScopeRel; rw [hv]; exact ValsRel.cons (fun _ => rfl) hr.scope.sc,
     by rw [q.abs, hv]; exact DVals.cons (fun _ => rfl) hr.scope.dv⟩,
    by rw [q.abs]; exact hr.out, by rw [q.abs]; exact hr.next,
-   fun n hn => by rw [q.names]; exact hr.reg n (by rw [q.abs] at hn; exact hn)⟩
+   fun n hn => by rw [q.names]; exact hr.reg n (by rw [q.abs] at hn; exact hn), q.rd hr.rd⟩
 
 theorem dvals_tail {decls : List Name} {vs : List (List (Name × Value))} {ds : List (List (Name × Nat))}
     (h : DVals decls vs ds) : DVals decls vs.tail ds.tail := by
@@ -44,17 +56,19 @@ theorem drel_leave {s s' : St} {ss : SpecSt} (hr : DRel s ss) (q : Quiet s s') (
   ⟨⟨by unfold ScopeRel; rw [hv]; exact scopeRel_tail hr.scope.sc,
     by rw [q.abs, hv]; exact dvals_tail hr.scope.dv⟩,
    by rw [q.abs]; exact hr.out, by rw [q.abs]; exact hr.next,
-   fun n hn => by rw [q.names]; exact hr.reg n (by rw [q.abs] at hn; exact hn)⟩
+   fun n hn => by rw [q.names]; exact hr.reg n (by rw [q.abs] at hn; exact hn), q.rd hr.rd⟩
 
 /-! ### The bookkeeping operations are quiet -/
 
-def Instr.skipped (i : Instr) : Prop := ∀ A : AbsSt, abstractStep A i = A
+/-- an instruction the abstract reading ignores and that reads and writes no register -/
+def Instr.skipped (i : Instr) : Prop := (∀ A : AbsSt, abstractStep A i = A) ∧ i.reads = [] ∧ i.writes = none
 
-theorem skipped_jumpTo (l : Name) : (Instr.jumpTo l).skipped := fun _ => rfl
-theorem skipped_setLabel (l : Name) : (Instr.setLabel l).skipped := fun _ => rfl
+theorem skipped_jumpTo (l : Name) : (Instr.jumpTo l).skipped := ⟨fun _ => rfl, rfl, rfl⟩
+theorem skipped_setLabel (l : Name) : (Instr.setLabel l).skipped := ⟨fun _ => rfl, rfl, rfl⟩
 
 theorem quiet_push (i : Instr) (hi : i.skipped) (s : St) : Quiet s (s.push i) :=
-  ⟨rfl, by rw [abs_push, hi], rfl⟩
+  ⟨rfl, by rw [abs_push, hi.1], rfl,
+   fun h => rd_push_nowrite h i hi.2.2 (fun q hq => by rw [hi.2.1] at hq; cases hq)⟩
 
 theorem root_pushVia (k : Nat) (i : Instr) (s : St) :
     (s.pushVia k i).root.context = s.root.context ++ [i] ∧ (s.pushVia k i).root.innerNames = s.root.innerNames := by
@@ -62,18 +76,47 @@ theorem root_pushVia (k : Nat) (i : Instr) (s : St) :
   cases s.inner <;> exact ⟨rfl, rfl⟩
 
 theorem quiet_pushVia (k : Nat) (i : Instr) (hi : i.skipped) (s : St) : Quiet s (s.pushVia k i) := by
-  refine ⟨(pushVia_fields k i s).1, ?_, (root_pushVia k i s).2⟩
-  unfold St.abs abstractFold
-  rw [(root_pushVia k i s).1, List.foldl_append]
-  exact hi _
+  refine ⟨(pushVia_fields k i s).1, ?_, (root_pushVia k i s).2, ?_⟩
+  · unfold St.abs abstractFold
+    rw [(root_pushVia k i s).1, List.foldl_append]
+    exact hi.1 _
+  · intro h
+    unfold St.pushVia
+    refine rd_push_nowrite (rd_of_fields h ?_ ?_ ?_) i hi.2.2 (fun q hq => by rw [hi.2.1] at hq; cases hq)
+    · intro b hb
+      unfold St.mapCur at hb
+      cases hin : s.inner with
+      | nil => rw [hin] at hb; simp at hb
+      | cons b0 rest =>
+        rw [hin] at hb
+        simp at hb
+        rcases hb with rfl | hb
+        · exact ⟨b0, mem_frames.mpr (Or.inl (by simp [hin])), rfl⟩
+        · exact ⟨b, mem_frames.mpr (Or.inl (by simp [hin, hb])), rfl⟩
+    · unfold St.mapCur; cases s.inner <;> rfl
+    · unfold St.mapCur; cases s.inner <;> rfl
 
 theorem quiet_probeLabel (stem : Name) (s : St) : Quiet s (s.probeLabel stem).2 :=
-  ⟨rfl, rfl, rfl⟩
+  ⟨rfl, rfl, rfl, fun h => rd_of_fields h (by
+    intro b hb
+    simp [St.probeLabel, St.mapFrames] at hb
+    obtain ⟨b', hb', rfl⟩ := hb
+    exact ⟨b', mem_frames.mpr (Or.inl hb'), rfl⟩) rfl rfl⟩
 
-theorem quiet_enter (s : St) : Quiet s s.enter := ⟨rfl, rfl, rfl⟩
+theorem quiet_enter (s : St) : Quiet s s.enter :=
+  ⟨rfl, rfl, rfl, fun h => rd_of_fields h (by
+    intro b hb
+    simp [St.enter] at hb
+    rcases hb with rfl | hb
+    · exact ⟨s.cur, cur_mem_frames s, rfl⟩
+    · exact ⟨b, mem_frames.mpr (Or.inl hb), rfl⟩) rfl rfl⟩
 
 theorem quiet_leave (s : St) : Quiet s s.leave.2 :=
-  ⟨leave_errors s, abs_of_ctx (root_leave_fields s).1, (root_leave_fields s).2.2.1⟩
+  ⟨leave_errors s, abs_of_ctx (root_leave_fields s).1, (root_leave_fields s).2.2.1,
+   fun h => rd_of_fields h (by
+    intro b hb
+    obtain ⟨b', hb', _, _, _, _, hr, _⟩ := inner_leave s b hb
+    exact ⟨b', mem_frames.mpr (Or.inl hb'), hr⟩) (root_leave_fields s).2.2.2.2.1 (root_leave_fields s).1⟩
 
 theorem quiet_ifLabels (le : Option Name) (s : St) : Quiet s (ifLabels le s).2.2.2 := by
   unfold ifLabels
